@@ -8,7 +8,7 @@ use arrow_array::{ArrayRef, RecordBatch};
 use arrow_schema::{DataType, Field, Schema};
 use std::sync::Arc;
 use vcore::serde_json::json;
-use vcore::{Ctx, Level, Stats, catch, par_for};
+use vcore::{Ctx, Level, Stats, catch};
 use vmodel::build::{Layout, layouts_1, realise};
 use vmodel::validate::{batch_validate, well_formed};
 use vmodel::{Val, col_json, columns, grid_core};
@@ -57,7 +57,7 @@ pub fn run(ctx: &Ctx) -> ! {
             }
         }
     }
-    st.merge(par_for(ctx, "pipelines", cases.len() as u64, 4, |idx, st| {
+    st.merge(vcore::par_for_replayable(ctx, "pipelines", cases.len() as u64, 4, |idx, st| {
         let (ti, col, lay, deep) = &cases[idx as usize];
         let dt = &grid[*ti];
         let Ok(x) = realise(dt, col, lay) else { return };
@@ -109,11 +109,13 @@ pub fn run(ctx: &Ctx) -> ! {
     }));
 
     // ---- builder histories
-    crate::c01_builders::run(ctx, &mut st);
+    if ctx.replay.is_none() || vcore::replay_target(ctx).is_some_and(|t| t.0 == "builders") {
+        crate::c01_builders::run(ctx, &mut st);
+    }
 
     // ---- record batches: RecordBatch construction + slicing + projection
     let mut rb = 0u64;
-    for dt in grid.iter() {
+    for dt in grid.iter().filter(|_| ctx.replay.is_none()) {
         for col in columns(dt, 3, 2, true) {
             for lay in [Layout::compact(), Layout { slice: Some((1, 1)), ..Default::default() }] {
                 let Ok(a) = realise(dt, &col, &lay) else { continue };
